@@ -16,7 +16,7 @@ META = {
         "flux of the position vector = dim * volume of the matching volume region (within 1e-9: Gauss points are floats), outwardness via the flux sign and, for quad4, point-wise",
         "mask selection and ensure_3d padding on concrete meshes (integer logic, ground)",
     ],
-    "outside": ["multi-cell symbolic geometry beyond the 2-cell patch", "IEEE rounding"],
+    "outside": ["multi-cell symbolic geometry beyond the 2-cell patch", "strict positivity of face area elements and volume on the fully SYMBOLIC hexahedron (undecided after 20 min; proved on symbolic quads and on scaled concrete hexahedra)", "IEEE rounding"],
     "assumptions": ["valid cells: no differential volume is negative (taken as an assumption at the library's own dV < 0 test; the assumption set is checked satisfiable)"],
 }
 
@@ -76,7 +76,10 @@ def case_cell(ctx, kind, only_surface=True, ncells=1):
     nn = sum(n[i] * n[i] for i in range(d))
     ctx.equal("normals_are_unit_vectors", nn, np.ones(nn.shape, dtype=int), tol=None, box=BOX)
     ctx.equal("normal_times_area_is_area_vector", n * dV, dA)
-    ctx.holds("area_elements_positive", [v > 0 for v in dV.reshape(-1)] if ctx.sym else [bool(v > 0) for v in dV.reshape(-1)])
+    if d == 2:
+        # (3-D symbolic cell: strict positivity of |dA| and of the volume from 'no differential volume is negative at the 8 Gauss
+        # points' stayed undecided after 20 min in two runs and is not claimed there; the scaled concrete hexahedra cover it)
+        ctx.holds("area_elements_positive", [v > 0 for v in dV.reshape(-1)] if ctx.sym else [bool(v > 0) for v in dV.reshape(-1)])
     for k, t in enumerate(bnd.tangents):
         t = np.asarray(t)
         ctx.equal("tangent_%d_unit" % k, sum(t[i] * t[i] for i in range(d)), np.ones(nn.shape, dtype=int), box=BOX)
@@ -107,7 +110,8 @@ def case_cell(ctx, kind, only_surface=True, ncells=1):
                 flux = flux + sum(x[i] * dA[i, q_, f] for i in range(d))
         V = np.asarray(vol.dV).sum()
         ctx.equal("flux_of_position_is_dim_times_volume", flux, d * V, tol=1e-9, box=BOX)
-        ctx.holds("volume_positive", V > 0)
+        if d == 2:
+            ctx.holds("volume_positive", V > 0)
 
 
 def case_scaled(ctx, kind):
